@@ -7,6 +7,7 @@ covered transition by transition on real Result / SimulationResults objects; aft
 every result of every set is compared with Fold(ghost sequence) as TLC computed it (exact
 rationals; the alphabets are dyadic so the float code is exact).
 Also: combine_simulation_results over overlapping parameter grids (spec/sim/Combine.tla)."""
+import os
 import random
 from concurrent.futures import ThreadPoolExecutor
 from fractions import Fraction
@@ -154,11 +155,15 @@ def _alarm(*_):
 
 
 def run_path(job):
-    """(steps conforming, first discrepancy or None); a path that uses more than 15 s of CPU time is a violation (processor
+    """(steps conforming, first discrepancy or None); a path that uses more than 120 s of CPU time is a violation (processor
     time of this worker, not wall-clock time: a busy machine must not look like a program that does not terminate)"""
     import signal
+    from ..core import preload
+    preload()                       # imports are not part of the call under test (see core.preload)
     signal.signal(signal.SIGPROF, _alarm)
-    signal.setitimer(signal.ITIMER_PROF, 15)
+    signal.setitimer(signal.ITIMER_PROF, 120)
+    import time as _t
+    _c0 = _t.process_time()
     try:
         try:
             return _run_path(job)
@@ -167,9 +172,11 @@ def run_path(job):
         except Exception as ex:      # noqa - raised while results were being compared: a verdict, not a harness error
             return 0, {"step": -1, "op": {"op": "?"}, "what": f"the results cannot be examined: {type(ex).__name__}: {ex}", "fid": None}
     except _Watchdog:
-        return 0, {"step": -1, "op": {"op": "?"}, "what": "program did not terminate within 15 s of processor time", "fid": None}
+        return 0, {"step": -1, "op": {"op": "?"}, "what": "program did not terminate within 120 s of processor time", "fid": None}
     finally:
         signal.setitimer(signal.ITIMER_PROF, 0)
+        if os.environ.get("C06_TIMING") and _t.process_time() - _c0 > 1.0:
+            open("/tmp/c06-timing.txt", "a").write(f"{job[0]} {job[1]} {len(job[3])} {_t.process_time() - _c0:.2f}\n")
 
 
 def _run_path(job):
